@@ -38,6 +38,11 @@ def cases(tier, seed):
                 out.append({"arg": a, "mut": pat, "H": H, "above_root": int(pn == "mod3"), "diploid": False})
             if a["n"] % 2 == 0:
                 out.append({"arg": a, "mut": pat, "H": {"kind": "cont"}, "above_root": 0, "diploid": True})
+            if pn == "ones" and "renumber" not in a:
+                # missing data (sample isolated over the last locus) and sites with mutations on several nodes
+                if a["L"] > 1:
+                    out.append({"arg": a, "mut": pat, "H": {"kind": "cont"}, "above_root": 0, "diploid": False, "K": [0, a["L"] - 1]})
+                out.append({"arg": a, "mut": pat, "H": {"kind": "cont"}, "above_root": 0, "diploid": False, "merge_sites": True})
     return {
         "cases": out,
         "states": sp.states,
@@ -109,5 +114,5 @@ def run(case):
                 else:
                     tags["phases_checked"] = tags.get("phases_checked", 0) + 1
         if nontriv:
-            keys.append(f"{case['arg']['id']}|{case['mut']}|{case['H']}|{case['diploid']}|{kw}")
+            keys.append(f"{case['arg']['id']}|{case['mut']}|{case['H']}|{case['diploid']}|{case.get('K')}|{case.get('merge_sites')}|{kw}")
     return {"evals": evals, "viol": viol, "tags": tags, "keys": keys}
